@@ -2,10 +2,10 @@
    Only statements of theorems, closed by `exact`, and Print Assumptions.
    The emitted code the theorems speak about (Model.MathFn: sqrt_run / sqrt_nr_body /
    sqrt_main_body, random_run / random_main_body / random_setup_body) is compared with
-   what the current tree emits on every run (coq/Gen/C20/MathEmitted.v, harness/c20.py). *)
+   what the current tree emits on every run (coq/Gen/C20/MathEmitted_<k>.v, harness/c20.py). *)
 From Coq Require Import ZArith String List Bool.
 From JMCV Require Import Base.Int32 Base.Dec MC.Syntax MC.Sem Model.Names Model.VarOp Proofs.VarOp
-     Model.MathFn Proofs.MathFnNewton Proofs.MathFnLcg Proofs.MathFn.
+     Model.MathFn Proofs.MathFnNewton Proofs.MathFnLcg Proofs.MathFn Proofs.MathFnRange.
 Import ListNotations.
 Open Scope Z_scope.
 
@@ -137,6 +137,19 @@ Theorem C20_wrapped_call :
     exec ft env (S fuel) me (CCall f) st = Some (st', r_ok 0).
 Proof. exact wrapped_call_thm. Qed.
 Print Assumptions C20_wrapped_call.
+
+(* The bound `max - min + 1 <= 2^31-1` of the property's quantifier is sharp for constant arguments: for EVERY pair
+   of integer literals beyond it (e.g. `Math.random(0)` = (0, 2147483647), `Math.random(min=-2147483648, max=5)`)
+   the current tree emits `scoreboard players set __math__.rng.bound … <max-min+1>` with an amount that is not a
+   Java int — not a well-formed command, the function does not load.  The model term has no notion of how the
+   arguments are spelled (positional, keyword, macro …): harness/c20.py checks on every run that every spelling
+   of a call gives this one text.  These calls lie OUTSIDE the property's quantifier; this is not a `_refuted`. *)
+Theorem C20_random_constant_range_beyond_quantifier_not_wf :
+  forall nm target a b,
+    INT_MAX < b - a + 1 ->
+    forallb wf_cmd (random_run nm target (PLit a) (PLit b)) = false.
+Proof. exact random_const_range_beyond_not_wf. Qed.
+Print Assumptions C20_random_constant_range_beyond_quantifier_not_wf.
 
 (* ------------------------------------------------------------------ the pinned tree (before the fix) *)
 (* Regression witnesses of the two defects repaired by the `fix:` commits a9e13bd / 2cdc990
